@@ -30,7 +30,7 @@ def main():
     needs = ""
     if "--needs" in sys.argv:
         needs = sys.argv[sys.argv.index("--needs") + 1]
-    skip_root = "--skip-root" in sys.argv
+    skip_root = "--skip-root" in sys.argv or "--full" not in sys.argv
     name = os.path.basename(src)
     out = f"/verif/seeded/{prop}-{name}"
     os.makedirs(out, exist_ok=True)
@@ -56,7 +56,10 @@ def main():
         if rc != 0:
             meta["error"] = o[-800:]
             return finish(out, meta)
-        tests = " ".join(sorted(set(pkgs + ["./lake/...", "./compiler/...", "./runtime/...", "./zio/...", "./service/...", "./zson/...", "./vng/..."])))
+        broad = ["./lake/...", "./compiler/...", "./service/..."]
+        if "--full" in sys.argv:
+            broad += ["./runtime/...", "./zio/...", "./zson/...", "./vng/..."]
+        tests = " ".join(sorted(set(pkgs + broad)))
         if not skip_root:
             tests += " ."
         cmd = f"go test -vet=off -count=1 -timeout 40m {tests}"
